@@ -4,6 +4,7 @@ import BeffVerif.Props.C03Report
 import BeffVerif.Props.C03Parse
 import BeffVerif.Props.C03Declared
 import BeffVerif.Props.C03Idem
+import BeffVerif.Props.C03Order
 open BeffVerif.C03
 #print axioms safeParse_success_iff_validate
 #print axioms safeParse_failure_iff_not_validate
@@ -27,3 +28,4 @@ open BeffVerif.C03
 #print axioms BeffVerif.C03S.parse_idem
 #print axioms BeffVerif.C03S.rebuild
 #print axioms BeffVerif.C03S.obj_fold_nodup
+#print axioms BeffVerif.C03S.key_order_only
